@@ -1,4 +1,6 @@
 """C01 / C12 - impl headers, generics placement, lint attributes (TPL-HDR, TPL-LINT, TPL-SELFASSOC, TPL-GEN)."""
+import re
+
 from .. import ast as A
 from .. import tpl as T
 from .. import types as TY
@@ -505,7 +507,50 @@ def rule_generics_preserve(ctx):
                 f"`{name}` returns `{A.render(tail)[:100] if tail else '?'}`, which is not (a helper applied to) a clone of its input `{gp}`: a `Generics` re-built from tokens has no where-clause, so the deriving type's own `where` predicates vanish from the generated impl (E0277 inside the derive for `struct S<T>(T) where T: Copy`)",
                 {},
             )
+    # inside such a helper (and the other helpers that touch the item's generics) the parameter list only grows and
+    # every parameter is visited: no assignment to / clearing of `.params`, no `break` / early `return` inside a loop
+    # over the parameters (type parameters may follow a const parameter)
+    for g in A.functions(f):
+        if g.impl is not None or g.block is None or not g.name.startswith("add_"):
+            continue
+        ctx.instance(f"genpreserve:params:{g.name}")
+        for x, ps in A.walk(g.block):
+            k = A.kind(x)
+            if k == "Expr::Assign" and A.render(x["left"]).endswith(".params"):
+                gt_ = str(A.fn_text(g))
+                missing_ = [m_ for m_ in ("lifetimes()", "type_params()", "const_params()") if m_ not in gt_]
+                if not missing_:
+                    continue  # rebuilt from all three kinds of the input's parameters
+                ctx.report(f"genpreserve:params-assigned:{g.name}", ctx.where(f, x), f"`{g.name}` overwrites `{A.render(x['left'])}`: parameters of the deriving item that the new list does not copy (const parameters, say) disappear from the generated impl's generics while its `#ty_generics` still names them", {})
+            if k == "Expr::MethodCall" and x["method"]["sym"] in ("clear", "retain", "truncate", "pop", "drain") and A.render(x["receiver"]).endswith(".params"):
+                ctx.report(f"genpreserve:params-shrunk:{g.name}", ctx.where(f, x), f"`{g.name}` removes generic parameters (`{A.render(x)[:60]}`)", {})
+            if k == "Expr::ForLoop" and re.search(r"\.params\b|type_params|type_params_mut|const_params|lifetimes", A.render(x["expr"])):
+                exits = [y for y, yps in A.walk(x["body"]) if A.kind(y) in ("Expr::Break", "Expr::Return") and not any(A.kind(q) in ("Expr::Closure", "Expr::ForLoop", "Expr::While", "Expr::Loop") for q in yps)]
+                if exits:
+                    ctx.report(f"genpreserve:params-loop-exit:{g.name}", ctx.where(f, exits[0]), f"`{g.name}` leaves its loop over the generic parameters early (`{A.render(exits[0])[:40]}`): the parameters after that point get no bound (`struct S<const N: usize, T>(T)`: `T` comes after a const parameter)", {})
     wc = fam.get("add_extra_where_clauses")
     ctx.instance("genpreserve:old-predicates")
     if wc is None or A.wsearch(A.fn_text(wc[0]), "if let Some(old_where)=new_generics.where_clause{type_where_clauses.predicates.extend(old_where.predicates)}") is None:
         ctx.report("genpreserve:old-predicates", ctx.where(f, wc[0].node) if wc else "impl/src/utils.rs", "`add_extra_where_clauses` no longer appends the item's existing where-predicates to the added ones", {})
+
+
+def rule_bounds_appended(ctx):
+    """BOUNDS-APPEND: the where-predicates the fmt derives collect (inferred `FieldTy: Trait` bounds and the user's `bound(...)` predicates) are appended to the impl's where-clause for *every* input: in `fmt::display::expand` and `fmt::debug::expand` the statement `<where_clause>.predicates.extend(bounds)` exists and is reached unconditionally (its condition, as a formula, is `true`). Skipping it for some class of inputs (no type parameters, no where-clause ..) drops the explicit `bound(...)` of items that are generic only over lifetimes / consts."""
+    from . import reject as RJ
+    from .. import guardf as GF
+
+    for rel in ("impl/src/fmt/display.rs", "impl/src/fmt/debug.rs"):
+        fn = A.get_fn(ctx.files, rel, "expand")
+        sites = []
+        for mc, ps in A.method_calls(fn.block, "extend"):
+            if A.render(mc["receiver"]).endswith(".predicates") and len(mc["args"]) == 1:
+                sites.append((mc, ps))
+        ctx.instance(f"{rel}::expand:bounds-appended", sample={"sites": [A.render(m) for m, _ in sites]})
+        w = ctx.where(fn.file, fn.node)
+        if len(sites) != 1:
+            ctx.report(f"bounds-append:{rel}:sites", w, f"`expand` appends to the where-clause's predicates at {len(sites)} places (expected exactly one `where_clause.predicates.extend(bounds)`): the generated and user-given bounds do not reach the impl header as one list", {})
+            continue
+        mc, ps = sites[0]
+        f_ = RJ.site_formula(fn, mc, ps)
+        if f_ != GF.T:
+            ctx.report(f"bounds-append:{rel}:conditional", ctx.where(fn.file, mc), f"`{A.render(mc)}` in `expand` runs only under `{GF.canon_text(f_)}`: for the other inputs the collected bounds (the user's `bound(...)` predicates included) are dropped from the impl", {})
